@@ -95,6 +95,16 @@ def run(ck):
                     devS = min(devS, float(np.max(np.abs(S + 1e-8 * np.eye(d) - Mb))))
                 if devS > tolA:
                     probs.append(f'AGOP differs from the normalised sum of gradient outer products by {devS:.3g} at batch size {b}')
+            if centring and b >= n:
+                # centring with ONE accumulation batch (no batch can split the mean): the gradients of all points and outputs are centred on their common mean
+                flat = Gt.reshape(-1, d); flat = flat - flat.mean(0, keepdims=True)
+                S = (flat ** 2).sum(0) if diag else flat.T @ flat
+                S = S / (S.max() + 1e-30)
+                devS = float(np.max(np.abs(S - Mb)))
+                if not diag and m.use_sqrtM:
+                    devS = min(devS, float(np.max(np.abs(S + 1e-8 * np.eye(d) - Mb))))
+                if devS > tolA:
+                    probs.append(f'centred AGOP (one batch) differs from the normalised sum of outer products of the jointly centred gradients by {devS:.3g}')
             for p_ in probs:
                 ck.violation(p_ + f' (batch size {b}) on {desc}', dict(desc, b=b, problem=p_), key=json.dumps(dict(site='agop', what=p_[:25], centring=centring)))
             ck.case(dict(desc, b=b), nontrivial=(b < n), sample=(i == 1 and b == 2))
